@@ -288,4 +288,18 @@ theorem omd_float_halts (fl : Rat → Rat) (fuel : Nat) (ps etas : List Rat) (l0
     ∀ ws h, omdF fl fuel ps etas (l0 :: ls) = some (ws, h) → h = true :=
   omdF_halts fl fuel ps etas l0 ls D rank hrank hmid hlo hhi hfuel
 
+/-- `OnlineVariance` (Welford) over exact arithmetic never reports a negative variance (`M2` grows by
+`δ²(1-1/n) ≥ 0`): the fact BanditUCB's index needs under its `sqrt`.  (A sum-of-squares variant does
+not have it in floating point; the float claim for Welford — `δ` and `δ₂` have the same sign under
+monotone rounding — is trusted and checked on every generated UCB history.) -/
+theorem welford_var_nonneg (vs : List Rat) :
+    0 ≤ (Welford.run (fun x => x) vs).m2 ∧ ∀ x, (Welford.run (fun x => x) vs).var = some x → 0 ≤ x :=
+  Welford.var_nonneg vs
+
+/-- with `t ≥ 1`, `s ≥ 1` (`ucb_pmf_dist`'s invariant) and `var ≥ 0` both `sqrt` arguments of the UCB index are
+non-negative: the bonus the model leaves arbitrary is then a well-defined real number -/
+theorem ucb_index_args_nonneg (t s : ℕ) (ht : 1 ≤ t) (hs : 1 ≤ s) (var : ℝ) (hvar : 0 ≤ var) :
+    0 ≤ 2 * Real.log t / s ∧ 0 ≤ Real.log t / s * min (1 / 4) (var + Real.sqrt (2 * Real.log t / s)) :=
+  ucb_index_args_nonneg' t s ht hs var hvar
+
 end Coba.C16
